@@ -485,12 +485,19 @@ func (c *Float) Ident() string {
 	return decimalText(c.X)
 }
 
-// decimalText returns the decimal floating-point literal of x.
+// decimalText returns the decimal floating-point literal of x, which is a half,
+// float or double value (and thus exactly a float64).
 func decimalText(x *big.Float) string {
+	// LLVM reads a decimal literal as a double. Use the shortest digits that
+	// denote x as a double; the shortest formatting of math/big at the
+	// precision of x assumes a symmetric rounding interval, which is too wide
+	// below a power of two (float 2^25 was printed as 3.355443e+07, which is
+	// 33554430).
+	f, _ := x.Float64()
+	s := strconv.FormatFloat(f, 'g', -1, 64)
 	// Insert decimal point if not present.
 	//    3e4 -> 3.0e4
 	//    42  -> 42.0
-	s := x.Text('g', -1)
 	if !strings.ContainsRune(s, '.') {
 		if pos := strings.IndexByte(s, 'e'); pos != -1 {
 			s = s[:pos] + ".0" + s[pos:]
